@@ -24,6 +24,13 @@ PROJECTS = [0, 1, 2, 9]           # 0 = the incomplete-consumer placeholder, 9 =
 USERS = [None, 0, 1, 2]
 CT_ALL, CT_UNKNOWN = -2, -1
 CTYPES = [None, CT_ALL, CT_UNKNOWN, 1, 2, 7]
+# traits / classes asked for by name: the generator's pools (gen.TRAITS, the names gen.gen_op creates, renames and
+# deletes) plus names nothing ever creates (CUSTOM_T9, CUSTOM_N9, a standard-looking unknown name)
+T_UNKNOWN = ops.trait_tok('HW_NO_SUCH_TRAIT')
+TRAIT_TOKENS = [0, 2, 3, 5, 100001, 100002, 100003, 100004, 100009, T_UNKNOWN]
+TRAIT_NAME_LISTS = [[0, 100001], [100001, 100002, 100003, 100004], [1, 2, 3, 5, 100002, 100009, T_UNKNOWN], []]
+C_UNKNOWN = ops.rc_tok('NO_SUCH_CLASS')
+CLASS_TOKENS = [0, 1, 5, 1000, 1001, 1002, 1003, 1009, C_UNKNOWN]
 
 
 # ------------------------------------------------------------------ queries
@@ -34,10 +41,56 @@ def rcid_in(rcmap, tok):
     return rcmap.get(tok, -1)
 
 
+def _tname(t):
+    return 'HW_NO_SUCH_TRAIT' if t == T_UNKNOWN else ops.trait_name(t)
+
+
+def _cname(n):
+    return 'NO_SUCH_CLASS' if n == C_UNKNOWN else ops.rc_name(n)
+
+
+def name_queries():
+    """the class and trait reads (48 per state): GET /traits with and without `name=in:` / `associated`, GET /traits/{name},
+    GET /resource_classes, GET /resource_classes/{name}; versions on both sides of 1.2 (classes), 1.6 (traits), 1.7 (PUT of a
+    class changes meaning there; reads must not)"""
+    out = []
+
+    def traits(names, assoc, v):
+        qs = []
+        if names is not None:
+            qs.append('name=in:' + ','.join(_tname(t) for t in names))
+        if assoc is not None:
+            qs.append('associated=' + ('true' if assoc else 'false'))
+        term = '(QTraits %s %s)' % ('None' if names is None else '(Some %s)' % ops.lst(ops.z(t) for t in names),
+                                    'None' if assoc is None else '(Some %s)' % ('true' if assoc else 'false'))
+        out.append((term, v, '/traits' + ('?' + '&'.join(qs) if qs else '')))
+
+    for v in (5, 6, 39):
+        traits(None, None, v)
+    for assoc in (True, False):
+        for v in (6, 39):
+            traits(None, assoc, v)
+    for names in TRAIT_NAME_LISTS:
+        for assoc in (None, True, False):
+            traits(names, assoc, 39)
+    traits(TRAIT_NAME_LISTS[0], True, 5)                                          # 404 below 1.6 whatever the filter
+    for t in TRAIT_TOKENS:
+        out.append(('(QTrait %d)' % t, 39, '/traits/' + _tname(t)))
+    out.append(('(QTrait 0)', 5, '/traits/' + _tname(0)))
+    out.append(('(QTrait 100001)', 6, '/traits/' + _tname(100001)))
+    for v in (1, 2, 6, 7, 39):
+        out.append(('QClasses', v, '/resource_classes'))
+    for n in CLASS_TOKENS:
+        out.append(('(QClass %d)' % n, 39, '/resource_classes/' + _cname(n)))
+    for n, v in ((0, 1), (1000, 1), (0, 2), (1000, 2), (1001, 6), (1001, 7)):
+        out.append(('(QClass %d)' % n, v, '/resource_classes/' + _cname(n)))
+    return out
+
+
 def queries(rcmap):
     """-> list of (coq query term, version, http path); the versions sit on both sides of every
-    microversion at which the representation changes (1.1, 1.6, 1.9, 1.12, 1.14, 1.19, 1.28, 1.38)"""
-    out = []
+    microversion at which the representation changes (1.1, 1.2, 1.6, 1.9, 1.12, 1.14, 1.19, 1.28, 1.38)"""
+    out = name_queries()
     for u in range(1, gen.N_RP + 1):
         base = '/resource_providers/%s' % ops.uuid_of(u)
         for v in (0, 13, 14, 39):
@@ -96,12 +149,27 @@ def _inv_fields(b):
     return [b['total'], b['reserved'], b['min_unit'], b['max_unit'], b['step_size'], m, e]
 
 
+def _kind(q):
+    """constructor name of a query term"""
+    return q.strip('()').split()[0]
+
+
 def canon(q, r, rcmap):
     """(status, hdr, rows) of a response to query term q"""
     if r.status != 200:
         return (r.status, [], [])
     j = r.json
-    kind = q[1:].split()[0]
+    kind = _kind(q)
+    # class and trait listings are compared COMPLETELY: every standard name is a token of the model (ops.STD_TRAITS /
+    # ops.STD_RC index = token below n_std_traits / n_std_rc of Gen/GenConsts.v), custom names of the pools map to their
+    # token and any other name to a hash token >= 10^7 that the model never lists - so nothing is restricted away; the
+    # long runs of consecutive standard tokens are only *printed* as ranges (view_coq / rng_rows)
+    if kind == 'QTraits':
+        return (200, [], sorted([ops.trait_tok(t)] for t in j['traits']))
+    if kind == 'QClasses':
+        return (200, [], sorted([ops.rc_tok(x['name'])] for x in j['resource_classes']))
+    if kind == 'QClass':
+        return (200, [ops.rc_tok(j['name'])], [])
     if kind == 'QRp':
         hdr = [ops.tok_of_name(j['name'], 'rp'), j['generation']]
         if 'parent_provider_uuid' in j or 'root_provider_uuid' in j:
@@ -155,16 +223,32 @@ def canon(q, r, rcmap):
     raise ValueError(q)
 
 
+def _ranges(xs):
+    """sorted integers -> [(lo, hi)] of maximal runs of consecutive values (duplicates stay separate runs)"""
+    out = []
+    for x in xs:
+        if out and x == out[-1][1] + 1:
+            out[-1][1] = x
+        else:
+            out.append([x, x])
+    return out
+
+
 def view_coq(c):
     s, hdr, rows = c
-    return '(mkView %s %s %s)' % (ops.z(s), ops.lst(ops.z(x) for x in hdr),
-                                  ops.lst(ops.lst(ops.z(x) for x in row) for row in rows))
+    if len(rows) > 12 and all(len(row) == 1 for row in rows):
+        # a listing of name tokens: runs of consecutive tokens as (lo, hi); Reads.rng_rows expands them again
+        rows_term = '(rng_rows %s)' % ops.lst('(%s, %s)' % (ops.z(a), ops.z(b)) for a, b in _ranges([r[0] for r in rows]))
+    else:
+        rows_term = ops.lst(ops.lst(ops.z(x) for x in row) for row in rows)
+    return '(mkView %s %s %s)' % (ops.z(s), ops.lst(ops.z(x) for x in hdr), rows_term)
 
 
 # ------------------------------------------------------------------ running the implementation
-def run_one(rng, n_ops, profile='default', op_list=None):
+def run_one(rng, n_ops, profile='default', op_list=None, only=None):
     """One generated history (or the given op list) on a fresh service (same loop as hist.run_history,
-    with the reads issued after every request). -> list of (op, rcmap_before, [(q, v, path, canon)])"""
+    with the reads issued after every request; only: prefixes of the query terms to issue, None = all).
+    -> list of (op, rcmap_before, [(q, v, path, canon)])"""
     from harness import impl
     app = impl.App()
     steps = []
@@ -177,6 +261,8 @@ def run_one(rng, n_ops, profile='default', op_list=None):
         rcmap_before, rcmap = rcmap, ops.rc_map(dump)
         reads = []
         for q, v, path in queries(rcmap):
+            if only is not None and not q.startswith(only):
+                continue
             resp = app.request('GET', path, version=ops.ver(v), headers={'x-roles': 'admin,service'})
             reads.append((q, v, path, canon(q, resp, rcmap)))
         steps.append((op, rcmap_before, reads))
@@ -292,13 +378,31 @@ SCENARIOS = [
      ('alloc_put', 39, _cons(5, [(1, [(1002, 1), (0, 1)])], proj=1, user=1, type=1)),
      ('reshape', 39, [(1, 7, [_inv(0, 10), _inv(1, 64)])], [_cons(5, [(1, [(0, 2)])], proj=1, user=1, gen=1, type=2)]),
      ('alloc_delete', 2), ('alloc_delete', 2), ('inv_delete_all', 39, 1)],
+    # classes and traits: created, associated with one / two providers, dissociated, deleted (refused while in use),
+    # re-created; class renamed onto a fresh and onto an existing name, PUT at 1.7, deleted (refused while in use)
+    [('trait_put', 5, 100001), ('trait_put', 6, 100001), ('trait_put', 39, 100001), ('trait_put', 39, 100002),
+     ('trait_put', 39, 100004), ('trait_delete', 39, 100004), ('trait_delete', 39, 100004), ('trait_delete', 39, 2),
+     ('rp_create', 39, 1, 1, None), ('rp_create', 39, 2, 2, None),
+     ('traits_set', 39, 1, 0, [0, 100001]), ('traits_set', 39, 2, 0, [100001, 3, 100002]),
+     ('trait_delete', 39, 100001), ('traits_set', 39, 1, 1, [5]), ('trait_delete', 39, 100001),
+     ('traits_delete', 39, 2), ('trait_delete', 39, 100001), ('trait_put', 39, 100001), ('traits_set', 39, 2, 2, [100001]),
+     ('rp_delete', 2), ('trait_delete', 39, 100001),
+     ('rc_create', 1, 1000), ('rc_create', 2, 1000), ('rc_create', 39, 1000), ('rc_create', 39, 1001),
+     ('rc_rename', 6, 1000, 1002), ('rc_rename', 4, 1001, 1002), ('rc_rename', 2, 1002, 1002), ('rc_rename', 7, 1003, 1000),
+     ('rc_put', 6, 1000), ('rc_put', 7, 1000), ('rc_put', 39, 1000),
+     ('inv_set', 39, 1, 2, [_inv(1001, 4), _inv(0, 2)]), ('rc_delete', 39, 1001), ('rc_delete', 39, 1002),
+     ('rc_delete', 39, 0), ('inv_delete', 1, 1001), ('rc_delete', 39, 1001), ('rc_delete', 39, 1009), ('rc_create', 39, 1001)],
 ]
+
+
+# the class / trait scenario is followed by the class and trait reads and the provider reads that mention them
+SCENARIO_ONLY = {2: ('(QTrait', 'QClass', '(QClass', '(QRpTraits', '(QInvs')}
 
 
 def run_scenarios():
     """-> (n_reads, disagreements) over the hand-written histories"""
     workdir = tempfile.mkdtemp(prefix='pvreads')
-    batch = [run_one(None, 0, op_list=sc) for sc in SCENARIOS]
+    batch = [run_one(None, 0, op_list=sc, only=SCENARIO_ONLY.get(i)) for i, sc in enumerate(SCENARIOS)]
     res = check_batch(batch, workdir, 'scen')
     bad = []
     for i, (steps, dis) in enumerate(zip(batch, res)):
@@ -318,7 +422,7 @@ def _cover(batch):
     for steps in batch:
         for op, _m, rs in steps:
             for q, v, _p, cv in rs:
-                c[(q[1:].split()[0], cv[0], bool(cv[2]))] += 1
+                c[(_kind(q), cv[0], bool(cv[2]))] += 1
     return c
 
 
